@@ -1,7 +1,7 @@
 // c19.h - index-tensor and boolean-mask views (property C19, exploration)
 //
 //   reads    r <- A(it...)           in four contexts (construct, r += view, inside an expression, const parent)
-//   writes   A(it...) op= rhs        op in {=,+=,-=,*=,/=}, rhs in {scalar, tensor, expression 2*B+1, another random view B2(jt...)}
+//   writes   A(it...) op= rhs        op in {=,+=,-=,*=,/=}, rhs in {scalar, tensor, expression 2*B+1, another random view B2(jt...), (2I) % B}
 //   forms    A(it) | A(it0,it1) | A(it,k) | A(k,it) | A(it,fseq) | A(fseq,it) | A(flat n-D index tensor) | A(mask)
 //   oracle   gather / scatter by a reference loop over flat positions; the whole parent is compared, so the written set is
 //            exactly the indexed / true positions; canary frames round parent and result objects
@@ -73,7 +73,9 @@ template <class T, size_t M, size_t N> struct RV<PM<T, M, N>> {
 };
 
 enum Ctx { C_CONSTRUCT = 0, C_COMPOUND = 1, C_EXPR = 2, C_CONST = 3, C_ASSIGN = 4 };
-enum Rhs { R_SCALAR = 0, R_TENSOR = 1, R_EXPR = 2, R_VIEW = 3 };
+enum Rhs { R_SCALAR = 0, R_TENSOR = 1, R_EXPR = 2, R_VIEW = 3, R_EVAL = 4 /* a right-hand side that has to be evaluated first: (2I) % B */ };
+template <class R> struct Lead;
+template <class T, size_t K, size_t... Rest> struct Lead<Tensor<T, K, Rest...>> { static constexpr size_t value = K; };
 template <int C> struct CTag {};
 template <int R> struct RTag {};
 
@@ -109,6 +111,13 @@ template <class P, int OP> static inline void wr_(RTag<R_VIEW>, typename P::A& a
     typename P::A& b2 = *static_cast<typename P::A*>(g->B2);
     assign_op(OpTag<OP>(), P::view(a, g->it, g->k), RV<P>::view(b2, g));
 }
+template <class P, int OP> static inline void wr_(RTag<R_EVAL>, typename P::A& a, const Args* g) {
+    using T = typename P::scalar; const typename P::R& b = *static_cast<const typename P::R*>(g->B);
+    constexpr size_t L = Lead<typename P::R>::value;
+    Tensor<T, L, L> e; e.zeros(); for (size_t i = 0; i < L; ++i) e(i, i) = T(2);
+    fx::escape(e.data());
+    assign_op(OpTag<OP>(), P::view(a, g->it, g->k), e % b);
+}
 template <class P, int OP, int RHS> static FX_NOINLINE void wr(void* ap, const Args* g) {
     using A = typename P::A;
     fx::escape(ap); fx::escape(g);
@@ -130,7 +139,7 @@ struct Form {
 
 template <class T> struct Job {
     Form fm; size_t sizeofA = 0, sizeofR = 0; int total = 0, rn = 0;
-    rd_fn rdf[5] = {}; wr_fn wrf[5][4] = {};
+    rd_fn rdf[5] = {}; wr_fn wrf[5][5] = {};
 };
 template <class T, class P> static inline Job<T> job_of(const Form& fm) {
     Job<T> j; j.fm = fm; j.sizeofA = sizeof(typename P::A); j.sizeofR = sizeof(typename P::R);
@@ -252,12 +261,12 @@ template <class T> struct Drv {
 
     // ---- writes ----------------------------------------------------------------------------------------------------------
     void write_point(int op, int n, bool have_view_rhs) {
-        for (int r = 0; r < 4; ++r) {
+        for (int r = 0; r < 5; ++r) {
             if (!j.wrf[op][r]) continue;
             if (r == R_VIEW && !have_view_rhs) continue;
             memcpy(exp.data(), A0.data(), sizeof(T) * j.total);
             for (int i = 0; i < n; ++i) {
-                T rv = r == R_SCALAR ? (T)g.c : r == R_TENSOR ? B0[i] : r == R_EXPR ? (T)(T(2) * B0[i] + T(1)) : B20[pos2[i]];
+                T rv = r == R_SCALAR ? (T)g.c : r == R_TENSOR ? B0[i] : r == R_EXPR ? (T)(T(2) * B0[i] + T(1)) : r == R_EVAL ? (T)(T(2) * B0[i]) : B20[pos2[i]];
                 exp[pos[i]] = ref_op<T>(op, A0[pos[i]], rv);
             }
             memcpy(ad, A0.data(), sizeof(T) * j.total);
@@ -326,11 +335,11 @@ template <class T> struct Drv {
             put(jtp[0], 4, map.data(), N);
             fx.pt("mask=%lld,map=%lld,rhs=%lld", (long long)m, (long long)(counter % 3), 0);
             // a mask view has the parent's extent: position i takes rhs element i
-            for (int r = 0; r < 4; ++r) {
+            for (int r = 0; r < 5; ++r) {
                 if (!j.wrf[op][r]) continue;
                 memcpy(exp.data(), A0.data(), sizeof(T) * N);
                 for (int i = 0; i < N; ++i) if (mk[i]) {
-                    T rv = r == R_SCALAR ? (T)g.c : r == R_TENSOR ? B0[i] : r == R_EXPR ? (T)(T(2) * B0[i] + T(1)) : B20[map[i]];
+                    T rv = r == R_SCALAR ? (T)g.c : r == R_TENSOR ? B0[i] : r == R_EXPR ? (T)(T(2) * B0[i] + T(1)) : r == R_EVAL ? (T)(T(2) * B0[i]) : B20[map[i]];
                     exp[i] = ref_op<T>(op, A0[i], rv);
                 }
                 memcpy(ad, A0.data(), sizeof(T) * N);
